@@ -767,6 +767,18 @@ def check_initial(rep, repo, f, table, init):
     except Unknown as u:
         rep.inconclusive('C07.R5', gp.where, 'profile helpers inside the interpreted fragment', got=str(u))
         return
+    # "one entry per rank up to the instance's maximum rank": the number both profiles are sized by IS the largest student rank
+    from .c11 import ref_max_rank
+    from ..canon import canon as _canon0, equiv as _equiv0
+    try:
+        same_mr = _equiv0(_canon0(mr_rv), ref_max_rank())
+    except Unknown:
+        same_mr = None
+    if same_mr is None:
+        rep.inconclusive('C07.R5', mr.where, '_get_max_rank is inside the aggregate algebra', got=show(mr_rv)[:120])
+    else:
+        rep.check(same_mr, 'C07.R5', mr.where, 'the maximum rank is the largest rank_student over all acceptable pairs (ranks are per tie group: not the length of the longest list)',
+                  got=show(mr_rv)[:140], want='max(pair.rank_student for every pair)', construct='maximum rank')
     plen = list_length(gp_rv)
     if plen is None:
         rep.inconclusive('C07.R5', gp.where, 'length of the profile returned by _get_profile is [0] * N', got=show(gp_rv)[:100])
